@@ -6,7 +6,16 @@ REPO=$1; PKG=$2; TF=$3; TN=$4; RACE=${5:-}
 export GOFLAGS=-mod=mod GOPROXY=off GOSUMDB=off GOTOOLCHAIN=local
 GO=/root/go/pkg/mod/golang.org/toolchain@v0.0.1-go1.25.0.linux-amd64/bin/go
 OV=$(mktemp /var/tmp/gocv-ov-XXXXXX.json)
-printf '{"Replace": {"%s/%s/zz_gocv_replay_test.go": "%s"}}' "$REPO" "$PKG" "$TF" > $OV
+# TF may be a comma-separated list of test files (all overlaid into the package)
+python3 - "$REPO" "$PKG" "$TF" > $OV <<'PY'
+import json,sys
+repo,pkg,tfs=sys.argv[1:4]
+rep={}
+for i,tf in enumerate(tfs.split(',')):
+    name='zz_gocv_replay_test.go' if i==0 else 'zz_gocv_replay_%d_test.go'%i
+    rep['%s/%s/%s'%(repo,pkg,name)]=tf
+print(json.dumps({"Replace":rep}))
+PY
 (cd $REPO && ulimit -v 8000000 && $GO test $RACE -overlay $OV -vet=off -count=1 -timeout 120s -run "^${TN}\$" ./$PKG/ 2>&1)
 rc=$?
 rm -f $OV
